@@ -35,4 +35,80 @@ CHECKS = {
             {"name": "TestC12", "quick": 40000, "thorough": 2400000},
         ],
     },
+    "C03": {
+        "rule": "each case = a generated schema (1-3 tables, all column kinds: scalar/optional/set/map over integer, real, boolean, "
+                "string, uuid, enums, references, immutable columns, indexes) and a history of 1-20 transactions of 1-4 operations "
+                "(insert/select/update/mutate/delete/wait with generated where-clauses, every mutator, named uuids, server-assigned "
+                "uuids) drawn against the evolving reference state; every transaction is executed on the in-memory database "
+                "(decoded from JSON text exactly as the server decodes a request) and on refdb, an independent RFC 7047 "
+                "interpreter; per-operation results, accept/reject decision, the complete database contents and the reported "
+                "update (pre-state + update2 difference = post-state) are compared after every step. evaluations = histories. "
+                "Non-trivial = history containing a transaction where >=2 operations touch the same table, or a condition/"
+                "mutation on a set or map column; distinct = hash of (schema column kinds, operation/condition/mutator sequence).",
+        "assumptions": COMMON_ASSUMPTIONS + [
+            "refdb (pbt/refdb) is the reference: naive full-scan interpreter of RFC 7047 5.1/5.2 + commit rules, written from the RFC",
+            "tolerance classes (forms libovsdb documents as unsupported may be rejected): arithmetic on set/optional columns, "
+            "insert/delete mutators on optional columns, mutation of enum columns, includes/excludes on optional columns, "
+            "integer overflow; error kinds are compared only for 'timed out' and commit-time errors",
+            "representation: absent column = default, nil = empty, sets as sets, \"\" = all-zero uuid for unset scalar uuid columns",
+            "generated domain: wait only where libovsdb's documented simplification coincides with RFC 7047 (known finding "
+            "wait-semantics), select without 'columns' (known finding select-columns), cardinality bounds not enforced by the "
+            "in-memory database, no explicit all-zero uuid, no -0.0",
+        ],
+        "level_text": "exploration: thousands of generated histories over generated schemas per run, each step compared in full "
+                      "(results, decision, whole state, update) against an independent executable model of RFC 7047",
+        "level_note": "trusts refdb and the tolerance policy of DESIGN.md 2.4; L1 (Database/Transaction API) only for the hand-built "
+                      "operations, the model-API-built operations are exercised by the L2 checks",
+        "technique": "property-based testing (rapid): stateful history generation, differential against an executable reference model",
+        "tests": [
+            {"name": "TestC03", "quick": 2400, "thorough": 160000},
+            {"name": "TestC03NoRefs", "quick": 1600, "thorough": 80000},
+        ],
+    },
+    "C04": {
+        "rule": "reference-heavy schemas (2-4 tables, root/non-root mixes, strong and weak references in scalar, optional, set, "
+                "map-key and map-value positions, self references and cycles) and histories of 1-20 transactions biased to "
+                "insert-and-attach, move and detach of references; after every step: from-scratch scan of Database.List "
+                "(every strong reference resolves, every non-root row has a strong referrer, no weak reference dangles), "
+                "exact agreement with refdb (GC closure, pruning, accept/reject and error kind), Database.GetReferences for every "
+                "live, recently deleted and dangling uuid = references recomputed from the rows; TestC04Independence additionally "
+                "loads a fresh database with the current rows at a drawn step and runs the rest of the history on both. "
+                "Non-trivial = history with a commit that garbage-collects >=1 row, prunes >=1 weak reference, or is rejected "
+                "for a reference reason; distinct = hash of (schema kinds, operation sequence).",
+        "assumptions": COMMON_ASSUMPTIONS + [
+            "refdb commit procedure: GC to fixpoint interleaved with weak pruning, then strong check, weak minimum, indexes",
+            "tolerated (RFC does not order the rules): dangling strong reference or weak-minimum violation held only by a row that "
+            "is garbage collected in the same commit; strong reference inside a map pair that is pruned for its weak reference",
+            "generated domain: scalar reference columns always given a value on insert; a symbolic name is only used for reference "
+            "columns of its own table (known finding cross-table-uuid); no immutable weak-reference columns (known finding "
+            "weak-prune-immutable)",
+        ],
+        "level_text": "exploration: generated reference-heavy histories with from-scratch invariant recomputation and model agreement "
+                      "after every commit, plus history-independence differential against a freshly loaded database",
+        "level_note": "trusts refdb's commit procedure; invariants I1-I3 and I5 are recomputed from Database.List independently of refdb",
+        "technique": "property-based testing (rapid): stateful generation, invariants over every reachable state + reference model + twin differential",
+        "tests": [
+            {"name": "TestC04", "quick": 2000, "thorough": 160000},
+            {"name": "TestC04Independence", "quick": 1000, "thorough": 80000},
+        ],
+    },
+    "C06": {
+        "rule": "index-heavy schemas (single and two-column unique indexes over scalar columns of every atomic type) and histories "
+                "biased to swaps, 3-rotations, delete+insert of the same value (both orders), hand-overs, genuine duplicates by insert "
+                "and by update, two inserts of one value with one deleted again, GC of indexed rows; after every step a full scan for "
+                "duplicate index tuples, and accept/reject + 'constraint violation' must agree with refdb's final-state scan. "
+                "Non-trivial = transaction with a transient duplicate that is accepted or a final duplicate that is rejected; "
+                "distinct = hash of (schema kinds, operation sequence).",
+        "assumptions": COMMON_ASSUMPTIONS + [
+            "index columns are scalar (min=max=1) columns: the cache uses the value as a Go map key",
+            "known finding index-overwrite excluded by construction: transactions in which >=3 rows hold one index tuple at the same "
+            "time, or which look rows up through an index after a transient duplicate on it",
+        ],
+        "level_text": "exploration: generated histories that move index values between rows, with a duplicate scan and model agreement after every commit",
+        "level_note": "trusts refdb's final-state duplicate scan (a full scan over canonical values)",
+        "technique": "property-based testing (rapid): stateful generation biased to index hand-overs, invariant scan + reference model",
+        "tests": [
+            {"name": "TestC06", "quick": 2400, "thorough": 200000},
+        ],
+    },
 }
